@@ -1,5 +1,6 @@
 import AdaptiveProofs.Props.C16Loss
 import AdaptiveProofs.Lemmas.Avg1DLossValues
+import AdaptiveProofs.Lemmas.Avg1DFlatHist
 
 /-!
 # C16 (extension 3) — the VALUES of the inherited `losses` table of AverageLearner1D for loss
@@ -195,3 +196,416 @@ example :
       L1D.getLoss lossSum b 0 (1 / 4) = .fin (257 / 16) := by decide +kernel
 
 end C16LossValuesExamples
+
+/-! ## (7) APPENDED (P41): `FlatHist` discharged — the run-level theorem without the hypothesis -/
+namespace Avg1DFull
+open L1D (Loss Ival)
+variable {α : Type} [Field α] [LinearOrder α] [IsStrictOrderedRing α]
+variable (lossFn : List (Option α) → List (Option (List α)) → Loss α) (r12 : α → α)
+variable (sqrt : α → α) (tq : Nat → α) (hypot : α → α → α)
+
+/-- C16L.i  `FlatHist` IS TRUE OF THE MODEL: along every history from `init` (any factor, any `nn`, any
+loss function; tells of new abscissae, re-samples, `tell_many_at_point` incl. its intermediate state,
+`tell_many`, asks, pending marks, discards; abscissae need not even be in bounds) in which the
+seed ↦ y mapping of every `tell_many_at_point` has DISTINCT seeds (`OpND`; a Python dict has no
+duplicate keys — the model takes a list), `_scale[1] = 0` implies that all running means are equal. -/
+theorem c16l_flatHist (lo hi factor dxEps : α) (nn : Nat) (delta minError : α) (minS maxS : Nat)
+    (ns : α) (ops : List (Op α)) (hnd : ∀ op ∈ ops, OpND op) :
+    FlatHist lossFn r12 sqrt tq hypot (init lo hi factor dxEps nn delta minError minS maxS ns)
+      (expandOps ops) :=
+  flatHist_init lossFn r12 sqrt tq hypot lo hi factor dxEps nn delta minError minS maxS ns ops hnd
+
+/-- C16L.j  the invariant behind it, in every reachable state: the output box (once there is one) is
+`[a], [c]` with `a ≤ c`, `_scale[1] = c - a`, no data without a box, and in a degenerate box every
+running mean (`data[x]`, both copies) is the box value. -/
+theorem c16l_flat_invariant (lo hi factor dxEps : α) (nn : Nat) (delta minError : α) (minS maxS : Nat)
+    (ns : α) (ops : List (Op α)) (hnd : ∀ op ∈ ops, OpND op) :
+    FH (run lossFn r12 sqrt tq hypot (init lo hi factor dxEps nn delta minError minS maxS ns) ops) := by
+  rw [run_expandOps]
+  exact fh_run lossFn r12 sqrt tq hypot _ (fh_init lo hi factor dxEps nn delta minError minS maxS ns)
+    (opND_expandOps hnd) (noTellMany_expandOps ops)
+
+/-- C16L.h'  RUN-LEVEL VALUE THEOREM WITHOUT `FlatHist`: recomputation factor 1, any `nn`, a loss
+function that is `ScaleMonotone` and `FlatScaleFree`, every history from `init` of in-bounds tells
+(single, re-samples, `tell_many`, `tell_many_at_point` with distinct seeds), asks, pending marks and
+discards: every stored loss of `losses` is the loss function's value on the current running means at
+the current scales. -/
+theorem c16l_values_exact' (lo hi dxEps : α) (nn : Nat) (delta minError : α) (minS maxS : Nat) (ns : α)
+    (hm : L1D.ScaleMonotone lossFn r12) (hfl : L1D.FlatScaleFree lossFn) (ops : List (Op α))
+    (hin : ∀ op ∈ expandOps ops, OpIn lo hi op) (hnd : ∀ op ∈ ops, OpND op) :
+    let s := run lossFn r12 sqrt tq hypot (init lo hi 1 dxEps nn delta minError minS maxS ns) ops
+    Exact lossFn s.base ∧ s.base.oldScaleY = s.base.scaleY ∧ s.base.scaleX = hi - lo :=
+  c16l_values_exact lossFn r12 sqrt tq hypot lo hi dxEps nn delta minError minS maxS ns hm hfl ops hin
+    (c16l_flatHist lossFn r12 sqrt tq hypot lo hi 1 dxEps nn delta minError minS maxS ns ops hnd)
+
+end Avg1DFull
+
+section C16FlatHistExamples
+open Avg1DFull
+
+/-! ### the guard `OpND` is needed IN THE MODEL (a list may repeat a seed; a Python dict cannot):
+two abscissae with value 3, then `tell_many_at_point(1, [(5, 1), (5, 3)])`: `np.mean` sees `1` and `3`,
+the sample store (hence `min`/`max` fed to `_update_scale`) only `3`: the scale stays `0`, the mean at
+`x = 1` becomes `7/3`. -/
+set_option quotPrecheck false in
+local notation "dupOps" =>
+  ([Op.tell 0 0 3, Op.tell 0 1 3, Op.tellManyAtPoint 1 [(5, 1), (5, 3)]] : List (Op ℚ))
+
+example :
+    let b := (run lossDec2 id id (fun _ => 1) hyp2' lInit' dupOps).base
+    b.scaleY = 0 ∧ b.data = [(0, [3]), (1, [7 / 3])] ∧ ¬ L1D.ConstAtZero b := by decide +kernel
+
+/-- the theorem applied without any `FlatHist` side goal (history `ceOps2` of `Props/C16Loss.lean`) -/
+example : Exact lossDec2 (run lossDec2 id id (fun _ => 1) hyp2' lInit'
+    [Op.tellManyAtPoint 0 [(0, 0), (100, 4)], Op.tell 1 (1 / 2) 4, Op.tell 2 (1 / 4) 3,
+      Op.tellManyAtPoint 1 [(3, -1), (103, 0)]]).base :=
+  (c16l_values_exact' lossDec2 id id (fun _ => 1) hyp2' 0 1 0 0 (1 / 5) 0 1 50 (1 / 2)
+    (L1D.scaleMonotone_sq id monotone_id) (L1D.flatScaleFree_lossG _) _
+    (by intro op hop; simp [expandOps] at hop; rcases hop with rfl | rfl | rfl | rfl <;>
+          simp [OpIn] <;> norm_num)
+    (by intro op hop; simp at hop; rcases hop with rfl | rfl | rfl | rfl <;> simp [OpND])).1
+
+end C16FlatHistExamples
+
+/-! ## (8) APPENDED (P41): `nth_neighbors = 1` shapes (`triangle_loss`, `curvature_loss`)
+
+A loss with a finite value `F xs vals` is `ScaleMonotone` / `FlatScaleFree` as soon as `F` does not
+grow when the values are divided by a larger scale (`ValMono`) / does not see the scale on constant
+data (`ValFlat`).  Both properties are closed under sums, non-negative multiples and monotone maps
+(`** 0.5`), hold for everything that only looks at the abscissae, for `|Δy|` of the two middle
+points and for the mean triangle area of the (up to four) present points. -/
+namespace L1D
+variable {α : Type} [Field α] [LinearOrder α] [IsStrictOrderedRing α]
+
+def ValMono (F : List (Option α) → List (Option (List α)) → α) : Prop :=
+  ∀ (xs : List (Option α)) (vals : List (Option (List α))) (t t' : α), 0 < t → t ≤ t' →
+    F xs (scaleVals t' vals) ≤ F xs (scaleVals t vals)
+
+def ValFlat (F : List (Option α) → List (Option (List α)) → α) : Prop :=
+  ∀ (xs : List (Option α)) (vals : List (Option (List α))) (t t' : α), 0 < t → 0 < t' →
+    AllEq vals → F xs (scaleVals t' vals) = F xs (scaleVals t vals)
+
+/-- a loss that is always finite -/
+def lossF (F : List (Option α) → List (Option (List α)) → α) :
+    List (Option α) → List (Option (List α)) → Loss α := fun xs vals => .fin (F xs vals)
+
+theorem scaleMonotone_lossF (F : List (Option α) → List (Option (List α)) → α) (r12 : α → α)
+    (hr : Monotone r12) (h : ValMono F) : ScaleMonotone (lossF F) r12 :=
+  fun xs vals t t' ht hle _ _ => hr (h xs vals t t' ht hle)
+
+theorem flatScaleFree_lossF (F : List (Option α) → List (Option (List α)) → α) (h : ValFlat F) :
+    FlatScaleFree (lossF F) :=
+  fun xs vals t t' ht ht' ha => congrArg Loss.fin (h xs vals t t' ht ht' ha)
+
+/-! ### closure -/
+section closure
+variable {F G : List (Option α) → List (Option (List α)) → α}
+
+theorem valMono_const (A : List (Option α) → α) : ValMono (fun xs _ => A xs) :=
+  fun _ _ _ _ _ _ => le_refl _
+theorem valFlat_const (A : List (Option α) → α) : ValFlat (fun xs _ => A xs) :=
+  fun _ _ _ _ _ _ _ => rfl
+theorem ValMono.add (hF : ValMono F) (hG : ValMono G) : ValMono (fun xs v => F xs v + G xs v) :=
+  fun xs v t t' ht hle => add_le_add (hF xs v t t' ht hle) (hG xs v t t' ht hle)
+theorem ValFlat.add (hF : ValFlat F) (hG : ValFlat G) : ValFlat (fun xs v => F xs v + G xs v) :=
+  fun xs v t t' ht ht' ha => by
+    show F xs _ + G xs _ = F xs _ + G xs _
+    rw [hF xs v t t' ht ht' ha, hG xs v t t' ht ht' ha]
+theorem ValMono.const_mul (hF : ValMono F) {c : α} (hc : 0 ≤ c) : ValMono (fun xs v => c * F xs v) :=
+  fun xs v t t' ht hle => mul_le_mul_of_nonneg_left (hF xs v t t' ht hle) hc
+theorem ValFlat.const_mul (hF : ValFlat F) (c : α) : ValFlat (fun xs v => c * F xs v) :=
+  fun xs v t t' ht ht' ha => by
+    show c * F xs _ = c * F xs _
+    rw [hF xs v t t' ht ht' ha]
+theorem ValMono.comp (hF : ValMono F) {f : α → α} (hf : Monotone f) : ValMono (fun xs v => f (F xs v)) :=
+  fun xs v t t' ht hle => hf (hF xs v t t' ht hle)
+theorem ValFlat.comp (hF : ValFlat F) (f : α → α) : ValFlat (fun xs v => f (F xs v)) :=
+  fun xs v t t' ht ht' ha => by
+    show f (F xs _) = f (F xs _)
+    rw [hF xs v t t' ht ht' ha]
+theorem ValFlat.comp2 (hF : ValFlat F) (f : List (Option α) → α → α) :
+    ValFlat (fun xs v => f xs (F xs v)) :=
+  fun xs v t t' ht ht' ha => by
+    show f xs (F xs _) = f xs (F xs _)
+    rw [hF xs v t t' ht ht' ha]
+end closure
+
+/-! ### the scalar values -/
+
+/-- the scalar value at position `i` of the window (`0` when absent) -/
+def yAt (vals : List (Option (List α))) (i : Nat) : α := ((vals.getD i none).bind List.head?).getD 0
+
+/-- the abscissa at position `i` of the window -/
+def xAt (xs : List (Option α)) (i : Nat) : α := (xs.getD i none).getD 0
+
+/-- `[y for y in ys if y is not None]` (scalar values) -/
+def yList (vals : List (Option (List α))) : List α := vals.filterMap (fun v => v.bind List.head?)
+
+/-- `[x for x in xs if x is not None]` -/
+def xList (xs : List (Option α)) : List α := xs.filterMap id
+
+theorem yAt_scaleVals (t : α) (vals : List (Option (List α))) (i : Nat) :
+    yAt (scaleVals t vals) i = yAt vals i / t := by
+  unfold yAt scaleVals
+  rw [List.getD_eq_getElem?_getD, List.getD_eq_getElem?_getD, List.getElem?_map]
+  rcases vals[i]? with _ | _ | _ | ⟨y, r⟩ <;> simp
+
+theorem yList_scaleVals (t : α) (vals : List (Option (List α))) :
+    yList (scaleVals t vals) = (yList vals).map (· / t) := by
+  induction vals with
+  | nil => rfl
+  | cons v vs ih =>
+    have ih' : List.filterMap (fun v => v.bind List.head?) (scaleVals t vs) =
+        (List.filterMap (fun v => v.bind List.head?) vs).map (· / t) := ih
+    rcases v with _ | _ | ⟨y, r⟩ <;>
+      simp [yList, scaleVals, List.filterMap_cons] <;> simpa [scaleVals] using ih'
+
+theorem yList_allEq {vals : List (Option (List α))} (h : AllEq vals) :
+    ∀ y ∈ yList vals, ∀ y' ∈ yList vals, y = y' := by
+  have key : ∀ y ∈ yList vals, ∃ l, some l ∈ vals ∧ l.head? = some y := by
+    intro y hy
+    unfold yList at hy
+    obtain ⟨v, hv, hvy⟩ := List.mem_filterMap.1 hy
+    cases v with
+    | none => cases hvy
+    | some l => exact ⟨l, hv, hvy⟩
+  intro y hy y' hy'
+  obtain ⟨l, hl, e⟩ := key y hy
+  obtain ⟨l', hl', e'⟩ := key y' hy'
+  rw [h l l' hl hl', e'] at e
+  exact (Option.some.inj e).symm
+
+/-! ### `|Δy|` of the two middle points -/
+
+/-- the scalar values of the two ends of the interval (positions 1 and 2 of the raw window) -/
+def midY (vals : List (Option (List α))) : Option (α × α) :=
+  match vals.getD 1 none, vals.getD 2 none with
+  | some (y1 :: _), some (y2 :: _) => some (y1, y2)
+  | _, _ => none
+
+/-- `|ys[2] - ys[1]|` of the raw window -/
+def absDyMid (_ : List (Option α)) (vals : List (Option (List α))) : α :=
+  match midY vals with
+  | some (y1, y2) => |y2 - y1|
+  | none => 0
+
+theorem midY_scaleVals (t : α) (vals : List (Option (List α))) :
+    midY (scaleVals t vals) = (midY vals).map (fun q => (q.1 / t, q.2 / t)) := by
+  unfold midY scaleVals
+  rw [List.getD_eq_getElem?_getD, List.getD_eq_getElem?_getD, List.getD_eq_getElem?_getD,
+    List.getD_eq_getElem?_getD, List.getElem?_map, List.getElem?_map]
+  rcases vals[1]? with _ | _ | _ | ⟨y, r⟩ <;> rcases vals[2]? with _ | _ | _ | ⟨y', r'⟩ <;> simp
+
+theorem absDyMid_nonneg (xs : List (Option α)) (vals : List (Option (List α))) :
+    0 ≤ absDyMid xs vals := by
+  unfold absDyMid
+  split
+  · exact abs_nonneg _
+  · exact le_refl _
+
+theorem valMono_absDyMid : ValMono (absDyMid (α := α)) := by
+  intro xs vals t t' ht hle
+  unfold absDyMid
+  rw [midY_scaleVals, midY_scaleVals]
+  rcases midY vals with _ | ⟨y1, y2⟩
+  · exact le_refl _
+  · show |y2 / t' - y1 / t'| ≤ |y2 / t - y1 / t|
+    rw [← sub_div, ← sub_div, abs_div, abs_div, abs_of_pos ht, abs_of_pos (lt_of_lt_of_le ht hle)]
+    exact div_le_div_of_nonneg_left (abs_nonneg _) ht hle
+
+theorem valFlat_absDyMid : ValFlat (absDyMid (α := α)) := by
+  intro xs vals t t' ht ht' ha
+  unfold absDyMid
+  rw [midY_scaleVals, midY_scaleVals]
+  rcases hm : midY vals with _ | ⟨y1, y2⟩
+  · rfl
+  · have e : y1 = y2 := by
+      unfold midY at hm
+      rw [List.getD_eq_getElem?_getD, List.getD_eq_getElem?_getD] at hm
+      rcases h1 : vals[1]? with _ | _ | _ | ⟨z1, r1⟩ <;> rw [h1] at hm <;>
+        rcases h2 : vals[2]? with _ | _ | _ | ⟨z2, r2⟩ <;> rw [h2] at hm <;> simp at hm
+      have := ha (z1 :: r1) (z2 :: r2) (List.mem_of_getElem? h1) (List.mem_of_getElem? h2)
+      rw [← hm.1, ← hm.2]
+      exact List.head_eq_of_cons_eq this
+    subst e
+    show |y1 / t' - y1 / t'| = |y1 / t - y1 / t|
+    rw [sub_self, sub_self]
+
+/-- `g(xs, |Δy_mid|)` with `g` monotone in `|Δy| ≥ 0`, e.g. `sqrt(dx² + dy²)` -/
+theorem valMono_ofAbsDyMid (g : List (Option α) → α → α)
+    (hg : ∀ xs d d', 0 ≤ d → d ≤ d' → g xs d ≤ g xs d') :
+    ValMono (fun xs vals => g xs (absDyMid xs vals)) :=
+  fun xs vals t t' ht hle => hg xs _ _ (absDyMid_nonneg _ _) (valMono_absDyMid xs vals t t' ht hle)
+
+/-! ### the mean triangle area -/
+
+/-- `volume` of a 2-d triangle -/
+def areaP (p0 p1 p2 : α × α) : α :=
+  |(p1.1 - p0.1) * (p2.2 - p0.2) - (p2.1 - p0.1) * (p1.2 - p0.2)| / 2
+
+/-- `sum(vol(pts[i : i + 3]) for i in range(N))` -/
+def triSumP : List (α × α) → α
+  | [] => 0
+  | p0 :: r => (match r with
+      | p1 :: p2 :: _ => areaP p0 p1 p2
+      | _ => 0) + triSumP r
+
+theorem areaP_nonneg (p0 p1 p2 : α × α) : 0 ≤ areaP p0 p1 p2 :=
+  div_nonneg (abs_nonneg _) (by norm_num)
+
+theorem triSumP_nonneg (l : List (α × α)) : 0 ≤ triSumP l := by
+  induction l with
+  | nil => exact le_refl _
+  | cons p0 r ih =>
+    unfold triSumP
+    refine add_nonneg ?_ ih
+    split
+    · exact areaP_nonneg _ _ _
+    · exact le_refl _
+
+theorem areaP_div {t : α} (ht : 0 < t) (p0 p1 p2 : α × α) :
+    areaP (p0.1, p0.2 / t) (p1.1, p1.2 / t) (p2.1, p2.2 / t) = areaP p0 p1 p2 / t := by
+  unfold areaP
+  have e : (p1.1 - p0.1) * (p2.2 / t - p0.2 / t) - (p2.1 - p0.1) * (p1.2 / t - p0.2 / t) =
+      ((p1.1 - p0.1) * (p2.2 - p0.2) - (p2.1 - p0.1) * (p1.2 - p0.2)) / t := by
+    field_simp
+  dsimp only
+  rw [e, abs_div, abs_of_pos ht, div_right_comm]
+
+theorem triSumP_div {t : α} (ht : 0 < t) (l : List (α × α)) :
+    triSumP (l.map (fun p => (p.1, p.2 / t))) = triSumP l / t := by
+  induction l with
+  | nil => simp [triSumP]
+  | cons p0 r ih =>
+    rw [List.map_cons]
+    unfold triSumP
+    rw [ih, add_div]
+    congr 1
+    rcases r with _ | ⟨p1, _ | ⟨p2, r'⟩⟩
+    · simp
+    · simp
+    · exact areaP_div ht p0 p1 p2
+
+/-- `triangle_loss` (scalar values): the interval width with two present points, else the mean area of
+the triangles of consecutive present points -/
+def triF (xs : List (Option α)) (vals : List (Option (List α))) : α :=
+  if (xList xs).length = 2 then (xList xs).getD 1 0 - (xList xs).getD 0 0
+  else triSumP ((xList xs).zip (yList vals)) / (((xList xs).length - 2 : Nat) : α)
+
+theorem triF_scaleVals {t : α} (ht : 0 < t) (xs : List (Option α)) (vals : List (Option (List α))) :
+    triF xs (scaleVals t vals) =
+      if (xList xs).length = 2 then (xList xs).getD 1 0 - (xList xs).getD 0 0
+      else triSumP ((xList xs).zip (yList vals)) / t / (((xList xs).length - 2 : Nat) : α) := by
+  unfold triF
+  rw [yList_scaleVals]
+  have e : (xList xs).zip ((yList vals).map (· / t)) =
+      ((xList xs).zip (yList vals)).map (fun p => (p.1, p.2 / t)) := by
+    rw [List.zip_map_right]
+    rfl
+  rw [e, triSumP_div ht]
+
+theorem valMono_triF : ValMono (triF (α := α)) := by
+  intro xs vals t t' ht hle
+  rw [triF_scaleVals (lt_of_lt_of_le ht hle), triF_scaleVals ht]
+  split
+  · exact le_refl _
+  · apply div_le_div_of_nonneg_right _ (Nat.cast_nonneg _)
+    exact div_le_div_of_nonneg_left (triSumP_nonneg _) ht hle
+
+theorem triSumP_flat {a : α} : ∀ (l : List (α × α)), (∀ p ∈ l, p.2 = a) → triSumP l = 0 := by
+  intro l
+  induction l with
+  | nil => intro _; rfl
+  | cons p0 r ih =>
+    intro h
+    unfold triSumP
+    rw [ih (fun p hp => h p (List.mem_cons_of_mem _ hp)), add_zero]
+    rcases r with _ | ⟨p1, _ | ⟨p2, r'⟩⟩
+    · rfl
+    · rfl
+    · show areaP p0 p1 p2 = 0
+      unfold areaP
+      rw [h p0 (by simp), h p1 (by simp), h p2 (by simp)]
+      simp
+
+theorem valFlat_triF : ValFlat (triF (α := α)) := by
+  intro xs vals t t' ht ht' ha
+  rw [triF_scaleVals ht', triF_scaleVals ht]
+  split
+  · rfl
+  · have hz : triSumP ((xList xs).zip (yList vals)) = 0 := by
+      rcases hyl : yList vals with _ | ⟨y0, yr⟩
+      · simp [triSumP]
+      · apply triSumP_flat (a := y0)
+        intro p hp
+        have hp2 : p.2 ∈ yList vals := by rw [hyl]; exact (List.of_mem_zip hp).2
+        exact yList_allEq ha p.2 hp2 y0 (by rw [hyl]; exact List.mem_cons_self)
+    rw [hz]; simp
+
+/-- `triangle_loss` is covered -/
+theorem scaleMonotone_triangle (r12 : α → α) (hr : Monotone r12) :
+    ScaleMonotone (lossF (triF (α := α))) r12 := scaleMonotone_lossF _ r12 hr valMono_triF
+
+theorem flatScaleFree_triangle : FlatScaleFree (lossF (triF (α := α))) :=
+  flatScaleFree_lossF _ valFlat_triF
+
+/-- `curvature_loss`: `area_factor * triangle_loss ** 0.5 + euclid_factor * default_loss(middle) +
+horizontal_factor * dx`, with `default_loss = sqrt(dx² + dy²)`; `sqrt` any monotone function -/
+def curvF (sqrt : α → α) (af ef hf : α) (xs : List (Option α)) (vals : List (Option (List α))) : α :=
+  af * sqrt (triF xs vals) +
+    ef * sqrt ((xAt xs 2 - xAt xs 1) * (xAt xs 2 - xAt xs 1) + absDyMid xs vals * absDyMid xs vals) +
+    hf * (xAt xs 2 - xAt xs 1)
+
+theorem valMono_curvF (sqrt : α → α) (hs : Monotone sqrt) {af ef : α} (haf : 0 ≤ af) (hef : 0 ≤ ef)
+    (hf : α) : ValMono (curvF sqrt af ef hf) := by
+  have h1 : ValMono (fun xs vals => af * sqrt (triF (α := α) xs vals)) :=
+    (valMono_triF.comp hs).const_mul haf
+  have h2 : ValMono (fun xs vals => ef * sqrt ((xAt xs 2 - xAt xs 1) * (xAt xs 2 - xAt xs 1) +
+      absDyMid (α := α) xs vals * absDyMid xs vals)) := by
+    refine ValMono.const_mul ?_ hef
+    refine valMono_ofAbsDyMid (fun xs d => sqrt ((xAt xs 2 - xAt xs 1) * (xAt xs 2 - xAt xs 1) + d * d)) ?_
+    intro xs d d' h0 hdd
+    apply hs
+    have := mul_le_mul hdd hdd h0 (le_trans h0 hdd)
+    linarith
+  exact (h1.add h2).add (valMono_const (fun xs => hf * (xAt xs 2 - xAt xs 1)))
+
+theorem valFlat_curvF (sqrt : α → α) (af ef hf : α) : ValFlat (curvF sqrt af ef hf) := by
+  have h1 : ValFlat (fun xs vals => af * sqrt (triF (α := α) xs vals)) :=
+    (valFlat_triF.comp sqrt).const_mul af
+  have h2 : ValFlat (fun xs vals => ef * sqrt ((xAt xs 2 - xAt xs 1) * (xAt xs 2 - xAt xs 1) +
+      absDyMid (α := α) xs vals * absDyMid xs vals)) :=
+    (ValFlat.comp2 (F := absDyMid) valFlat_absDyMid
+      (fun xs d => sqrt ((xAt xs 2 - xAt xs 1) * (xAt xs 2 - xAt xs 1) + d * d))).const_mul ef
+  exact (h1.add h2).add (valFlat_const (fun xs => hf * (xAt xs 2 - xAt xs 1)))
+
+/-- `curvature_loss` is covered (non-negative `area_factor`, `euclid_factor`; monotone `sqrt`) -/
+theorem scaleMonotone_curvature (r12 sqrt : α → α) (hr : Monotone r12) (hs : Monotone sqrt)
+    {af ef : α} (haf : 0 ≤ af) (hef : 0 ≤ ef) (hf : α) :
+    ScaleMonotone (lossF (curvF sqrt af ef hf)) r12 :=
+  scaleMonotone_lossF _ r12 hr (valMono_curvF sqrt hs haf hef hf)
+
+theorem flatScaleFree_curvature (sqrt : α → α) (af ef hf : α) :
+    FlatScaleFree (lossF (curvF sqrt af ef hf)) :=
+  flatScaleFree_lossF _ (valFlat_curvF sqrt af ef hf)
+
+end L1D
+
+section C16Nn1Examples
+open Avg1DFull
+
+/-- `nth_neighbors = 1`, `triangle_loss` over ℚ: a history with re-samples and a batch is exact BY THE
+THEOREM (no `FlatHist` side goal) -/
+example : Exact (L1D.lossF (L1D.triF (α := ℚ)))
+    (run (L1D.lossF L1D.triF) id id (fun _ => 1) hyp2' (init 0 1 1 0 1 (1 / 5) 0 1 50 (1 / 2))
+      [Op.tell 0 0 (-4), Op.tell 1 1 0, Op.tell 2 (1 / 4) (-4), Op.tell 3 (1 / 2) (-2), Op.tell 4 0 0,
+        Op.tellManyAtPoint 1 [(3, -1), (103, 5)], Op.tellMany [((7, 3 / 4), 2), ((8, 3 / 4), 1)]]).base :=
+  (c16l_values_exact' (L1D.lossF L1D.triF) id id (fun _ => 1) hyp2' 0 1 0 1 (1 / 5) 0 1 50 (1 / 2)
+    (L1D.scaleMonotone_triangle id monotone_id) L1D.flatScaleFree_triangle _
+    (by intro op hop
+        simp [expandOps, groupOps, groupPts, groupOp, Avg1D.dictUpdate] at hop
+        rcases hop with rfl | rfl | rfl | rfl | rfl | rfl | rfl <;> simp [OpIn] <;> norm_num)
+    (by intro op hop; simp at hop
+        rcases hop with rfl | rfl | rfl | rfl | rfl | rfl | rfl <;> simp [OpND])).1
+
+end C16Nn1Examples
